@@ -166,7 +166,7 @@ func poolChild(a Args) {
 			h := batched.NewHandler(sock, opts)
 			var lines []map[string]interface{}
 			lines = append(lines, map[string]interface{}{"ev": "reset", "cfg": fmt.Sprintf("pool/%s/bs%d/d%d/callers%d%s", a.Mode, opts.BatchSize, opts.BatchDelayMicros, callers, variant),
-				"proto": "call", "twotier": false, "trace": c, "seed": a.Seed, "retry": map[string]int{"cuts": 4, "flap": 16}[a.Mode]})
+				"proto": "call", "twotier": false, "trace": c, "seed": a.Seed, "retry": map[string]int{"cuts": 4, "flap": 2}[a.Mode]})
 			project := func() []interface{} {
 				t := st.LiveSnapshot()
 				out := stack.MMap{}
